@@ -3,9 +3,7 @@
 import json, os, re, sys
 ROOT = os.path.dirname(os.path.dirname(os.path.abspath(__file__)))
 WHY_MISSED = {
- "C02-a": "channel readers (isChanSub sessions) are not in the world model",
  "C03-b": "needs the hub blocked inside store.Topics.Delete while the topic goroutine serves a {pub}: a goroutine interleaving, the sequential harness pumps one handler at a time",
- "C09-b": "channel readers are not in the world model",
  "C10-b": "'me' topic contact loading (loadContacts/perSubs) is not in the world model",
  "C14-a": "needs cleanUp to cross with the session's own in-flight {sub}: a goroutine interleaving",
  "C14-b": "needs a {sub} to cross with pausing of the same topic between hub and topic goroutines: an interleaving",
